@@ -623,6 +623,11 @@ class Tahoe2ServerSelector(log.PrefixingLogMixin):
             # XXX can we just use a set() or does order matter?
             if tracker not in readonly_trackers:
                 readonly_trackers.append(tracker)
+            # the placement planner must hear about it too, or the next
+            # round plans the same shares for this server again
+            serverid = tracker.get_serverid()
+            if serverid in self.peer_selector.peers:
+                self.peer_selector.mark_readonly_peer(serverid)
             return None
 
         # so we *always* want to run this loop at least once, even if
